@@ -188,6 +188,9 @@ func equals(t types.Type, x, y value) bool {
 
 // load returns the value of type T in *addr.
 func load(T types.Type, addr *value) value {
+	if p, ok := (*addr).(poison); ok {
+		panic(engineFault{"read of a variable whose initialiser could not be executed: " + p.why})
+	}
 	switch T := T.Underlying().(type) {
 	case *types.Struct:
 		v := (*addr).(structure)
